@@ -300,7 +300,7 @@ contract(ED + "subscribe", props=["C12"], types={"event_handler": "Fun"},
 # C12: "running front-running catch-all handlers first, then the source's handlers started in subscription order, then the
 # other catch-all handlers" -- ghost trace of the gathered batches (each batch = one list, elements in list order;
 # asyncio.gather starts its children in argument order: assumed asyncio contract)
-contract(ED + "_dispatch_event", props=["C12", "C14", "C15"],
+contract(ED + "_dispatch_event", props=["C12", "C14", "C15", "C03"],
          requires=[("clock_is_event_time", "implies(typeis(self, 'BacktestingDispatcher'), not_none(self._last_dt) and event_dispatch.event.when <= self._last_dt)"),
                    ("due", "implies(typeis(self, 'RealtimeDispatcher'), event_dispatch.event.when <= clock('utc'))")],
          ensures=[("stages", "stages_in_order('_call_event_handler', event_dispatch.event, self._sniffers_pre, event_dispatch.handlers, self._sniffers_post)")],
